@@ -71,6 +71,10 @@ func c13NewScript(t *testing.T, checkExisting bool, bidFound string) *c13Script 
 
 // expect waits until the order has entered the named gated step and returns the call.
 func (s *c13Script) expect(step string) *c13Call {
+	if c, ok := s.h.pending[step]; ok { // arrived earlier while another step was awaited
+		delete(s.h.pending, step)
+		return c
+	}
 	deadline := time.After(c13Wait)
 	for {
 		select {
@@ -93,6 +97,12 @@ func (s *c13Script) log() []string {
 
 // finish completes whatever the order still starts (successfully) until it terminates.
 func (s *c13Script) finish() {
+	for _, step := range []string{"group", "bidquery", "auditor", "reserve", "pricing", "createbid", "closebid", "unreserve", "othertx"} {
+		if c, ok := s.h.pending[step]; ok {
+			delete(s.h.pending, step)
+			c.release <- nil
+		}
+	}
 	deadline := time.After(c13Wait)
 	for {
 		select {
